@@ -90,6 +90,14 @@ func propC01(c *Ctx) int {
 		j.MustReach = []string{"expanded"}
 		c.RunJob(j)
 	}
+	// b'. every place that can name a user type x every notation / self-reference the type can have
+	{
+		j := base
+		j.Name, j.Fn, j.Params = "reference matrix", "HRefMatrix", nil
+		j.Stubs = []string{"rune"}
+		j.MustReach = []string{"accepted", "rejected"}
+		c.RunJob(j)
+	}
 	// c. the public entry point on missing / directory / empty / arbitrary root files
 	for kind := 0; kind <= 3; kind++ {
 		j := base
@@ -107,6 +115,7 @@ func propC01(c *Ctx) int {
 	locationContractJobs(c, 4)
 	return c.Finish("model_checking", []string{
 		fmt.Sprintf("bounds: root file of <= %d arbitrary bytes; %d arbitrary bytes after each of %d witness prefixes (harness/core/zz_verif_prefixes.go); macro graphs <= 3 macros; include graphs <= 3 files + root; per-path budget 3e6 SSA steps / call depth 400 (exceeding it = candidate hang / runaway recursion, replayed natively in a subprocess)", maxN, k, NumPrefixes-1),
+		"reference matrix (HRefMatrix): 18 places that can name a user type (Path property / root / or-rule / allOf, request and response Headers, Query root / property, Request, response, array response, Params, Result, allOf of a type, or / type / additionalProperties rules, key shortcut) x 9 notations of the type (jsight object / scalar / array, regex, regex whose example holds a control character, any, empty, a type that refers to itself, a cycle of two) x definition before / after use — all symbolic: the build ends with a catalog or a located error (no panic, no runaway recursion); known finding F-C01-key-shortcut-self-reference (recursion inside jsight-schema-core)",
 		"file system = virtual (os.Stat, os.ReadFile, reader.Read modelled; absent => ErrNotExist; directory => error)",
 		"jsight-schema-core (schema scanner/compiler) is executed symbolically from its own SSA; regexp, time.Parse, net/mail, reggen, json.Unmarshal run natively on concrete operands and are an explicit drop on symbolic ones",
 		"the location contract is discharged for contents <= 4 bytes at every index and for long lines (198..203 / 320 bytes, 30 boundary indices; HLocationLong)",
@@ -368,12 +377,13 @@ func propC10(c *Ctx) int {
 }
 
 func propC19(c *Ctx) int {
-	for doc := int64(0); doc <= 3; doc++ {
+	for doc := int64(0); doc <= 7; doc++ {
 		c.RunJob(Job{Name: fmt.Sprintf("banned pair doc#%d", doc), Pkg: "core", Fn: "HBanned", Params: map[string]int64{"doc": doc},
 			Stubs: []string{"loc", "rune"}, PanicIsViolation: true, MaxPaths: 100000, Timeout: time.Hour, MaxSteps: 5000000, MaxDepth: 1000,
 			MustReach: []string{"rejected", "unaffected"}})
 	}
 	return c.Finish("model_checking", []string{
+		"four more projects whose last directive is faulty in itself (INCLUDE of a missing file, TYPE with a bad name, a method with two paths, Headers with an unfinished body): rejected also without a ban; when that directive is banned the not-allowed error is due (not the complaint about its arguments), when an absent kind is banned the error is the one without the option",
 		"bound: four fixed projects (MACRO, PASTE and an unpasted macro body written only in INCLUDEd files; HTTP kitchen sink with MACRO/PASTE/INCLUDE; JSON-RPC; directives only inside an unused MACRO body and only inside an included file) x banned set {b1,b2} symbolic over all 31 kinds",
 		"oracle: some banned kind occurs in the project text => rejected with the not-allowed error located on a keyword of a banned kind; none occurs => same tree and catalog size as without the option",
 		contractLoc, contractRune,
@@ -517,9 +527,9 @@ func propC09(c *Ctx) int {
 
 func propC06(c *Ctx) int {
 	thorough := c.Tier == "thorough"
-	docs := []int64{0, 1, 2, 3, 4, 5, 6, 7, 8, 9, 10, 11, 12, 13, 15}
+	docs := []int64{0, 1, 2, 3, 4, 5, 6, 7, 8, 9, 10, 11, 12, 13, 14, 16}
 	if thorough {
-		docs = []int64{0, 1, 2, 3, 4, 5, 6, 7, 8, 9, 10, 11, 12, 13, 14, 15, 16, 17}
+		docs = []int64{0, 1, 2, 3, 4, 5, 6, 7, 8, 9, 10, 11, 12, 13, 14, 15, 16, 17, 18}
 	}
 	totalSites := 0
 	for _, doc := range docs {
@@ -540,7 +550,7 @@ func propC06(c *Ctx) int {
 		"dynamic part: each project is built with insertion-ordered maps and built again with ONE range-over-map site (sites numbered in execution order, in the repository and in jsight-schema-core alike) iterating in a symbolic order — a full symbolic permutation (Lehmer code) for maps of <= 4 entries, a symbolic rotation + optional reversal above; every execution of that site uses the same symbolic order; the solver looks for an order that changes accept/reject, message, file, index, include trace or the catalog digest",
 		"prior builds (HRebuild): two projects at the SAME paths, differing in the symbolic names written in the root file and in an included file (the first one optionally failing), built one after the other in one process (one interpreter world: package-level variables persist): the second catalog says exactly what the second project says",
 		"outside the encoding: builds running CONCURRENTLY (the interpreter is sequential: no goroutine is ever started by the build code of the pinned tree; a go statement, channel operation or a store to a package-level variable outside init appears in the static list below and is not executed symbolically), separate processes, encoding/json",
-		fmt.Sprintf("projects: 13 determinism fixtures (two faults found by two different final checks; user types in a reference cycle with faults in several members, with and without an ENUM; a Tags directive repeating one of three tags; a path repeating two different parameters; two servers/tags/enums/OperationIds; several enums/types/path variables/allOf; two independent faults; three recursive macros; property overrides; path parameters defined on several levels; a Path schema with two unused properties; two types using undefined types) + layout skeletons; %d (project, site) pairs this run", totalSites),
+		fmt.Sprintf("projects: 14 determinism fixtures (a regex type referred to by several schemas — the catalog is compared WITH the examples the emitter writes; known finding F-C06-regex-example-map-order; two faults found by two different final checks; user types in a reference cycle with faults in several members, with and without an ENUM; a Tags directive repeating one of three tags; a path repeating two different parameters; two servers/tags/enums/OperationIds; several enums/types/path variables/allOf; two independent faults; three recursive macros; property overrides; path parameters defined on several levels; a Path schema with two unused properties; two types using undefined types) + layout skeletons; %d (project, site) pairs this run", totalSites),
 		"interactions between the orders of two different sites, cross-process effects other than map order, and everything below json.Marshal are outside the claim; a counterexample is confirmed natively by rebuilding the project 200 times (Go randomises map iteration)",
 		"static part (evidence.coverage.static_scan): every range-over-map, time / math/rand / os.Getenv call and pointer-to-integer conversion in the repository's packages, from the SSA of the current tree",
 		contractRune,
@@ -701,10 +711,14 @@ func propC15(c *Ctx) int {
 	}
 	c.RunJob(Job{Name: fmt.Sprintf("permutation of %d top-level blocks", n), Pkg: "core", Fn: "HPermute", Params: map[string]int64{"n": n},
 		Stubs: []string{"rune"}, PanicIsViolation: true, MaxPaths: 100000, Timeout: 2 * time.Hour, MaxSteps: 20000000, MaxDepth: 1000, MustReach: []string{"permuted"}})
-	c.RunJob(Job{Name: fmt.Sprintf("permutation of %d blocks with symbolic references", n-1), Pkg: "core", Fn: "HPermute", Params: map[string]int64{"n": n - 1, "edges": 1},
+	c.RunJob(Job{Name: fmt.Sprintf("permutation of %d blocks with symbolic references", n-1), Pkg: "core", Fn: "HPermute", Params: map[string]int64{"n": n - 1, "edges": 1, "rpc": 1},
 		Stubs: []string{"rune"}, PanicIsViolation: true, MaxPaths: 200000, Timeout: 2 * time.Hour, MaxSteps: 20000000, MaxDepth: 1000, MustReach: []string{"permuted"}})
+	c.RunJob(Job{Name: "permutation with tags", Pkg: "core", Fn: "HPermute", Params: map[string]int64{"family": 1},
+		Stubs: []string{"rune"}, PanicIsViolation: true, MaxPaths: 100000, Timeout: time.Hour, MaxSteps: 20000000, MaxDepth: 1000, MustReach: []string{"permuted"}})
 	return c.Finish("model_checking", []string{
-		fmt.Sprintf("one accepted document of %d independent top-level blocks after JSIGHT (TAG with description; TYPE @a referring to @b and to an ENUM; TYPE @b referring back to @a and carrying a rule; ENUM with notes; URL block with two methods, Tags and type references; stand-alone method with a path parameter, request headers + body and an array-of-type response; quick: + nothing, thorough: + SERVER) built as written and in a symbolic permutation (Lehmer code: all %d! orders); second job: one block fewer, and which block refers to which is symbolic as well (@a -> @b, @b -> @a — both: a cycle —, @a -> ENUM, the stand-alone method -> @a / @b: 16 reference structures x all orders)", n, n),
+		"tags family: methods with and without Tags, a declared TAG used before / after its block, optionally a Tags directive naming the path tag of another method, optionally a TAG declared with the name of a path tag (5 blocks, all orders, 4 variants): the verdict and the error class do not depend on the order; if accepted, the same entities",
+		"generated examples are not part of the comparison here: for schemas that refer to a regex type they are not even stable from run to run (C06, known finding F-C06-regex-example-map-order)",
+		fmt.Sprintf("one accepted document of %d independent top-level blocks after JSIGHT (TAG with description; TYPE @a referring to @b and to an ENUM; TYPE @b referring back to @a and carrying a rule; ENUM with notes; URL block with two methods, Tags and type references; stand-alone method with a path parameter, request headers + body and an array-of-type response; quick: + nothing, thorough: + SERVER) built as written and in a symbolic permutation (Lehmer code: all %d! orders); second job: one block fewer, and which block refers to which is symbolic as well (@a -> @b, @b -> @a — both: a cycle —, @a -> ENUM, the stand-alone method -> @a / @b: 16 reference structures x all orders; the TAG block is replaced by a JSON-RPC method whose Params inherit from @b through allOf and whose Result is [@a])", n, n),
 		"oracle: both accepted; the deep digests (every entity with names, annotations, descriptions, schema text and the emitter-level content tree / rules / used types of every schema and enum) are equal as multisets of entities; types and interactions appear in the text order of the permuted document",
 		"outside: INFO among the permuted blocks (quick tier), MACRO/PASTE/INCLUDE blocks (their order sensitivity is C09/C10's subject), more than one document, the JSON bytes",
 		contractRune,
@@ -767,6 +781,11 @@ func propC04(c *Ctx) int {
 			emitted += jr.Stats.Reached["emitted"]
 		}
 	}
+	{
+		jr := c.RunJob(Job{Name: "reference matrix emitted", Pkg: "core", Fn: "HRefMatrix", Params: map[string]int64{"emitOnly": 1}, Stubs: []string{"rune"}, PanicIsViolation: true, MaxPaths: 100000, Timeout: time.Hour,
+			MaxSteps: 3000000, MaxDepth: 400, MustReach: []string{"accepted"}})
+		emitted += jr.Stats.Reached["accepted"]
+	}
 	if emitted == 0 {
 		c.Inconclusive("vacuity: no accepted document was emitted")
 	}
@@ -779,6 +798,7 @@ func propC04(c *Ctx) int {
 	}
 	return c.Finish("model_checking", []string{
 		"emitter level: for every ACCEPTED document of the hole family (5 representative documents — one of them made of schema constructs: enum rule, regex type, min, allOf, or, forward type reference, arrays, Path, Query — with 2 symbolic bytes substituted at a cut; sampled cuts in the quick tier, every cut in the thorough tier) every step ToJson performs before it calls encoding/json succeeds (emitter-side compilation of each schema: content tree, allOf inheritance, used names; example generation; pseudo-schema notations) and every content node is typed consistently (containers: children, no scalar value; others: a scalar value, no children); the same on model-rendered documents of C02",
+		"reference matrix (HRefMatrix, see C01): for every ACCEPTED combination of a place that names a user type and a notation of that type the emitter steps succeed",
 		"reduction: encoding/json does not fail on the data types handed over (strings, bools, slices, structs, pointers; invalid UTF-8 is coerced, not refused) — trusted, reflection is not encoded; ToJson and ToJsonIndent are given the same data",
 		"outside: that the bytes are valid UTF-8 JSON of the JDoc Exchange shape (decided by encoding/json and the struct tags), key order, ToJson vs ToJsonIndent whitespace",
 		contractLoc, contractRune,
